@@ -156,6 +156,7 @@ class ResourcePool:
                 container.suspend_container()
                 self.suspending_containers.append(container)
                 self.active_containers.remove(container)
+            self._reconcile_consumed_ram()
         
         results = []
         if len(assignments) > 0:
